@@ -20,7 +20,7 @@ type FnResult struct {
 
 func (p *Prog) verifyFunction(f *ssa.Function, c *Contract) (res *FnResult) {
 	key := funcKey(f)
-	q := newQ(p, key)
+	q := newQ(p, key, c.Arith == "bv")
 	q.props = c.Props
 	res = &FnResult{Key: key, Q: q, Contract: c, Fn: f}
 	defer func() {
